@@ -83,6 +83,7 @@ struct PeerS {
   char sel = 'a';
   int budget = 0;
   bool ignore_cancel = false;
+  bool trickler = false;      // trailing 't': once inside a block the peer only trickles 1 byte per waiting period and answers nothing else
   uint32_t x_idx = 0, x_pos = 0;   // selector 'x': overwrite the bytes at offset x_pos of piece x_idx with x_bytes
   std::string x_bytes;
   std::deque<Req> pending;
@@ -108,6 +109,7 @@ struct Ctx {
   uint32_t blocks_per_piece = 1;
   int clock_s = 0;
   bool stuck = false;
+  bool trickled = false;       // the stall happened while a peer was trickling a block it leads
   bool stale = false;          // the stall is the known one: every candidate has a finished transfer on every open block
   std::set<uint32_t> tainted;  // pieces for which some peer ever sent bytes that are not the original content
   // stats
@@ -379,6 +381,14 @@ static void on_chunk_done(uint32_t idx) {
     // every byte any peer ever sent for this piece was the original content, yet the piece does not verify:
     // the client itself damaged honest data (and an honest peer can then never complete the piece)
     if (!c.tainted.count(idx) && c.viol.size() < 4) c.viol.push_back("honest-piece-failed:piece=" + std::to_string(idx));
+    {
+      // the HAVE channel: a piece whose verdict is "fail" must not be put into the have queue
+      auto* hq = T->main()->have_queue();
+      if (!hq->empty() && hq->front().second == idx && !T->dl.file_list()->bitfield()->get(idx)) {
+        c.async_ev.push_back("V:" + std::to_string(idx));
+        if (c.viol.size() < 4) c.viol.push_back("have-not-verified:queued-after-failed-verdict:piece=" + std::to_string(idx));
+      }
+    }
     std::string d = hex(sha1_raw(disk_piece(T, idx)));
     c.last_probe[idx] = d;
     c.async_ev.push_back("X:" + std::to_string(idx) + ":" + d);
@@ -646,7 +656,10 @@ static std::string run_case(Session& S, const std::string& line) {
           unsigned a = 0, b = 0; char hx[200] = {0};
           if (sscanf(tok.c_str() + 2, "%u_%u_%199[0-9a-f]", &a, &b, hx) == 3) { p->x_idx = a; p->x_pos = b; p->x_bytes = unhex(hx); }
         }
-        if (tok.find('i', 1) != std::string::npos && tok.back() == 'i') p->ignore_cancel = true;
+        while (tok.size() > 2 && (tok.back() == 'i' || tok.back() == 't')) {
+          if (tok.back() == 'i') p->ignore_cancel = true; else p->trickler = true;
+          tok.pop_back();
+        }
       }
       c.peers.push_back(std::move(p));
       if (q == std::string::npos) break;
@@ -760,6 +773,11 @@ static std::string run_case(Session& S, const std::string& line) {
         for (int r = 0; r < rounds; r++) {
           bool any = false;
           for (auto& pp : c.peers) {
+            if (pp->mid && pp->trickler && usable(c, pp.get())) {
+              // a stalling peer: one more byte of its block per round, which is not progress
+              if (pp->rest.size() > 1) { std::string d = pp->rest.substr(0, 1); pp->rest.erase(0, 1); send_data(c, pp.get(), d); }
+              continue;
+            }
             if (pp->mid && usable(c, pp.get())) {
               std::string d = pp->rest; pp->rest.clear(); pp->mid = false;
               send_data(c, pp.get(), d);
@@ -771,10 +789,13 @@ static std::string run_case(Session& S, const std::string& line) {
           wait_hash(c);
           if (T->dl.file_list()->is_done()) break;
           if (!any) {
-            if (++dry > 3) {
+            bool trickling = false;
+            for (auto& pp : c.peers) if (pp->mid && pp->trickler && usable(c, pp.get())) trickling = true;
+            if (++dry > (trickling ? 9 : 3)) {   // a trickled block is given 10 x 125 s
               for (auto& pp : c.peers) if (pp->variant == 0 && !pp->choking && usable(c, pp.get())) c.stuck = true;
               if (g_big.on) c.stuck = false;   // the peers of a huge sparse layout offer only the materialised pieces
               if (c.stuck) c.stale = stall_is_stale(c);
+              if (c.stuck) c.trickled = trickling;
               break;
             }
             pass_time(c, 125);
@@ -796,7 +817,7 @@ static std::string run_case(Session& S, const std::string& line) {
   for (auto& v : c.viol) verdict += " " + v;
   out += " || " + verdict + " ;; done=" + std::to_string(T->dl.file_list()->is_done() ? 1 : 0) + " sig=" + std::to_string(c.done_signalled ? 1 : 0) +
          " completed=" + bits + " writes=" + std::to_string(c.n_write_ops) + " hok=" + std::to_string(c.n_hash_ok) +
-         " hfail=" + std::to_string(c.n_hash_fail) + " disc=" + std::to_string(c.n_disc) + " stuck=" + std::to_string(c.stuck ? 1 : 0) + " stale=" + std::to_string(c.stale ? 1 : 0);
+         " hfail=" + std::to_string(c.n_hash_fail) + " disc=" + std::to_string(c.n_disc) + " stuck=" + std::to_string(c.stuck ? 1 : 0) + " stale=" + std::to_string(c.stale ? 1 : 0) + " trickled=" + std::to_string(c.trickled ? 1 : 0);
   size_t pend = 0;
   for (auto& p : c.peers) pend += p->pending.size();
   out += " pending=" + std::to_string(pend) + " listed=" + std::to_string(T->main()->delegator()->transfer_list()->size());
